@@ -60,9 +60,10 @@ def run_pool(tasks, jobs):
         return []
     if jobs <= 1 or len(tasks) == 1:
         return [RUN.run_task(t) for t in tasks]
+    from concurrent.futures import ProcessPoolExecutor
     ctx = mp.get_context('fork')
-    with ctx.Pool(min(jobs, len(tasks))) as pool:
-        return pool.map(RUN.run_task, tasks, chunksize=1)
+    with ProcessPoolExecutor(max_workers=min(jobs, len(tasks)), mp_context=ctx) as ex:
+        return list(ex.map(RUN.run_task, tasks))
 
 
 def canary():
